@@ -148,6 +148,9 @@ def main(run):
             raise RuntimeError("rewrite %s produced a program the reference rejects:\n%s" % (kind, src_b))
         key = "rw:%s:%s" % (kind, hashlib.sha256((src_a + src_b).encode()).hexdigest()[:12])
         rep = {"rewrite": kind, "site": desc, "original": src_a, "rewritten": src_b}
+        if c01.known_crash_key(a["panic"]) or c01.known_crash_key(b["panic"]):
+            run.count("skipped:known-compiler-crash")      # reported by C01 under its call-site key
+            continue
         if a["accepted"] != b["accepted"] or bool(a["panic"]) != bool(b["panic"]):
             rep.update(original_diag=a["diag"][:1200], rewritten_diag=b["diag"][:1200], panic=(a["panic"] or b["panic"])[:800])
             run.violation(key, "verdict changes under rewrite %s (original %s, rewritten %s)" %
